@@ -153,6 +153,8 @@ def run(run):
         clauses = sorted(set(int(x) for x in re.findall(r"\d+", m.group(1)))) if m else []
         names = ",".join(CLAUSES.get(c, str(c)) for c in clauses)
         extra = ":placeholder-in-input" if has_magic else (":heading-line-with-pre" if "level" in names and "<pre" in texts[i].lower() else "")
+        if not extra and "level" in names and re.search(r"^=+[^\n]*=[ \t]+=+[ \t]*$", texts[i], flags=re.M):
+            extra = ":heading-closing-equals-separated-by-blank"
         run.property_failure("c01:not-well-formed:%s%s" % (names, extra),
                              "parse(%r, %r) returned a tree violating clause(s) %s" % (texts[i][:300], kw, names),
                              {"text": texts[i], "kw": kw})
